@@ -163,7 +163,7 @@ def logic_worker(analysis: Analysis, spec) -> dict:
                 known = node is not None and ("in", node.key(), ("attr", ("root", "GW"), "sensors")) in (e.facts or ())
                 flush_entries.add((tname, sub, known))
             if e.kind == "seqpop" and isinstance(e.recv, V) and render(e.recv.key()).endswith(".sensors[*].queue"):
-                pops.append(e.func)
+                pops.append(FLUSH if FLUSH in e.stack else e.func)
     return {"ctx": ctx.name, "version": spec[0], "paths": len(outs), "sinks": {f"{k[0]}|{k[1]}|{k[2]}": v for k, v in sinks.items()}, "bad": bad, "ret_unrouted": ret_unrouted, "replies": nret, "flush_entries": sorted(flush_entries, key=str), "pops": sorted(set(pops))}
 
 
@@ -258,23 +258,28 @@ def sink_sites(analysis: Analysis) -> List[tuple]:
         for node in ast.walk(mod.tree):
             if isinstance(node, ast.Call) and isinstance(node.func, ast.Attribute):
                 if node.func.attr == "add_job":
-                    sites.append((common.func_of_node(analysis, mod, node), "add_job", common.where(analysis, mod, node)))
+                    sites.append((common.func_of_node(analysis, mod, node), "add_job", common.where(analysis, mod, node), node))
                 elif node.func.attr == "send" and unparse(node.func.value).endswith("transport"):
-                    sites.append((common.func_of_node(analysis, mod, node), "send", common.where(analysis, mod, node)))
+                    sites.append((common.func_of_node(analysis, mod, node), "send", common.where(analysis, mod, node), node))
     return sites
 
 
-EXPECTED_CLASS = {
-    ("__init__:Gateway.is_sensor", "add_job"): {"ROUTED"},
-    ("__init__:Gateway.set_child_value", "add_job"): {"NOT-SLEEPING"},
-    ("handler:handle_smartsleep", "add_job"): {"FLUSH"},
-    ("gateway_tcp:BaseTCPGateway.check_connection", "add_job"): {"GATEWAY-ADDRESSED"},
-    ("transport:BaseMySensorsProtocol.handle_line", "add_job"): {"INBOUND-DISPATCH"},
-    ("gateway_mqtt:MQTTTransport.recv", "add_job"): {"INBOUND-DISPATCH"},
-    ("task:SyncTasks._poll_queue", "send"): {"PUMP"},
-    ("task:AsyncTasks.add_job", "send"): {"PUMP"},
-    ("__init__:Gateway.send", "send"): {"RAW-API"},
-}
+def structural_class(analysis: Analysis, site: str, kind: str, call: ast.Call) -> str:
+    """Class of a sink site that follows from the shape of the call itself (no path needed)."""
+    if kind == "add_job" and call.args and unparse(call.args[0]).endswith(".logic"):
+        return "INBOUND-DISPATCH"  # enqueues the dispatcher itself with the received line
+    if kind == "send":
+        info = analysis.p.funcs.get(site)
+        if info is not None and call.args and isinstance(call.args[0], ast.Name):
+            arg = call.args[0].id
+            # PUMP: the argument is the result of run_job in the same function
+            for n in ast.walk(info.node):
+                if isinstance(n, ast.Assign) and any(isinstance(t, ast.Name) and t.id == arg for t in n.targets) and "run_job(" in unparse(n.value):
+                    return "PUMP"
+            params = [a.arg for a in info.node.args.args]
+            if info.cls is not None and "Gateway" in [c.split(":")[1] for c in analysis.p.mro(info.cls.qual) if not c.startswith("ext:")] and arg in params and info.name == "send":
+                return "RAW-API"
+    return ""
 
 
 def container_freshness(analysis: Analysis, res: RuleResult) -> None:
@@ -295,8 +300,14 @@ def container_freshness(analysis: Analysis, res: RuleResult) -> None:
         info = analysis.p.funcs.get(fn)
         if info is None:
             raise AnalysisError(f"anchor vanished: {fn}")
+        bodies = list(info.node.body)
+        for c in ast.walk(info.node):
+            if isinstance(c, ast.Call) and isinstance(c.func, ast.Attribute) and isinstance(c.func.value, ast.Name) and c.func.value.id == "self" and c.func.attr.startswith("_") and not c.func.attr.startswith("__") and info.cls is not None:
+                m = analysis.p.find_method(info.cls.qual, c.func.attr)
+                if hasattr(m, "node"):
+                    bodies.extend(m.node.body)
         for attr in ("new_state", "queue"):
-            ok = any(isinstance(st, ast.Assign) and any(unparse(t) == f"self.{attr}" for t in st.targets) and ((isinstance(st.value, ast.Dict) and not st.value.keys) or (isinstance(st.value, ast.Call) and unparse(st.value.func) in ("dict", "deque", "collections.deque") and not st.value.args)) for st in info.node.body)
+            ok = any(isinstance(st, ast.Assign) and any(unparse(t) == f"self.{attr}" for t in st.targets) and ((isinstance(st.value, ast.Dict) and not st.value.keys) or (isinstance(st.value, ast.Call) and unparse(st.value.func) in ("dict", "deque", "collections.deque") and not st.value.args)) for st in bodies)
             res.add("C07-R5", f"{fn} / gives the node its own `{attr}`", ok, common.where(analysis, info, info.node), f"self.{attr} = <fresh container>" if ok else f"{fn} does not assign a fresh `{attr}` container: nodes (e.g. all nodes restored from one pickle file) can share one sleep state / hold queue")
     if n < 3:
         raise AnalysisError(f"C07-R5: only {n} container initialisations found in sensor.py")
@@ -361,21 +372,17 @@ def run(analysis: Analysis, tier: str) -> RuleResult:
             res.add("C07-R2", "__init__:Gateway._route_message / traffic for a sleeping node is held", False, "mysensors/__init__.py", "no path of the router diverts a message into the node's queue", context=s["ctx"])
         for r in s["rows"]:
             res.add("C07-R2", f"__init__:Gateway._route_message / {r['what']}", r["ok"], "mysensors/__init__.py", r.get("why", ""), r["witness"] if not r["ok"] else None, context=s["ctx"])
-    # syntactic sink enumeration: every site must have been seen and classified as expected
+    # syntactic sink enumeration: every site is either classified by its own shape (pump, dispatch,
+    # raw API) or must have been reached and classified on the analysed paths
     sites = sink_sites(analysis)
-    for site, kind, where in sites:
+    for site, kind, where, call in sites:
+        sc = structural_class(analysis, site, kind, call)
+        if sc:
+            res.add("C07-R1", f"{site} / {kind} site is {sc}", True, where, "classified by the shape of the call")
+            continue
         classes = seen_sites.get((site, kind))
-        exp = EXPECTED_CLASS.get((site, kind))
-        if site in ("task:SyncTasks._poll_queue", "task:AsyncTasks.add_job", "__init__:Gateway.send", "transport:BaseMySensorsProtocol.handle_line", "gateway_mqtt:MQTTTransport.recv"):
-            # structural class by construction of the site
-            ok = exp is not None
-            res.add("C07-R1", f"{site} / {kind} site is {sorted(exp)[0] if exp else 'known'}", ok, where, "pump / dispatch / raw API site" if ok else "new sink site")
-            continue
-        if exp is None:
-            res.add("C07-R1", f"{site} / {kind} site is a known sink", False, where, "a new outbound sink: it is not covered by the sleeping-node discipline")
-            continue
-        ok = classes is not None and classes <= exp
-        res.add("C07-R1", f"{site} / {kind} site is {sorted(exp)[0]} on every path", ok, where, f"classes seen: {sorted(classes) if classes else 'site never reached by an analysed root'}")
+        ok = bool(classes) and "None" not in classes and None not in classes
+        res.add("C07-R1", f"{site} / {kind} site is covered by the sleeping-node discipline on every path", ok, where, f"classes seen: {sorted(map(str, classes))}" if classes else "an outbound sink that no analysed root reaches or classifies: it is not covered by the sleeping-node discipline")
     if len(sites) < 10:
         raise AnalysisError(f"C07-R1: only {len(sites)} sink sites found, expected at least 10")
     container_freshness(analysis, res)
